@@ -29,6 +29,27 @@ CHECKS = {
     ),
 }
 
+CHECKS["C01"] = dict(
+    text=("Kernel-level theorems of C04 (single pass and block-wise execution equal the per-group definition for every interleaving, null "
+          "placement, kernel, dtype class) plus Lean theorems about the public pipeline's specification: neutral result of an all-null group, "
+          "count/size semantics, first/last in row order, label set = keys with a selected row. The pipeline model (factorize -> kernel -> "
+          "observed filter -> label order) is executed by the driver next to the specification and both are compared with the real "
+          "GroupBy.size/count/sum/mean/min/max/first/last on generated datasets (all key classes, 1-3 keys, nulls anywhere, all mask kinds)."),
+    note="The equality of the pipeline model with the specification is checked by execution on every case (model= vs spec=), not yet proved in Lean for the factorize/observed/sort glue; label values are abstract ordered atoms; pandas factorize/argsort trusted.",
+    technique="Lean 4 proof of the kernel contract and of the specification's properties + executable pipeline model + differential correspondence against the public API",
+    design="§7 C01",
+)
+CHECKS["C02"] = dict(
+    text=("Lean theorems for every key list: first-appearance factorization satisfies label-at-code, equal-codes-iff-equal-keys, null-code-iff-null-key, "
+          "labels distinct, every label observed; group positions are ascending, cover exactly the rows with a valid code and never a null-key row; the "
+          "mixed-radix combination of several keys is injective on bounded digits and yields the null code iff ANY component is null. "
+          "The same relations are evaluated directly on the real output of factorize_1d / factorize_2d / monotonic_factorization / GroupBy (plain, "
+          "chunk-wise with scaled threshold, monotonic and partially monotonic, pre-chunked arrow) and the first-appearance routes are compared with the model."),
+    note="pd.factorize / get_indexer / drop_duplicates are assumed (exercised, not proved); the monotonic and chunk-pointer routes are modelled and tied by correspondence, their Lean theorems cover the first-appearance core and the counting-sort view; arrow bit-packed booleans are excluded (the library's own to_arrow rejects them).",
+    technique="Lean 4 proof (list induction; mixed-radix injectivity) + relations evaluated on the implementation's output for every route + model correspondence",
+    design="§7 C02",
+)
+
 NOT_APPLICABLE: list[dict] = []
 
 
